@@ -153,6 +153,87 @@ theorem leidenLoop_spec {kernel : Nat → List Nat → List Int × Bool} {refine
       · right
         exact ⟨a'', k'', c'', h, hl''.trans hlen2, hp'', hc'', hco2.trans hco''⟩
 
+/-- progress clause for Leiden (not proved by C06/C17 for the outer loop; monitored on every run by a contract
+    line): a round that does not raise the stop flag leaves strictly fewer refined clusters than nodes -/
+def LeidenProgress (kernel : Nat → List Nat → List Int × Bool) (refine : Nat → List Nat → List Int) : Prop :=
+  ∀ count labels, (kernel count labels).2 = false →
+    (unique (refine count (inverse (kernel count labels).1))).length < labels.length
+
+/-- ★ under `LeidenContract` and `LeidenProgress` the loop of `Leiden.fit` stops by itself: as many rounds as nodes -/
+theorem leidenLoop_fuel {kernel : Nat → List Nat → List Int × Bool} {refine : Nat → List Nat → List Int}
+    {nAgg : Int} (hk : LeidenContract kernel refine) (hp : LeidenProgress kernel refine) :
+    ∀ (fuel count : Nat) (labels a : List Nat), 0 < labels.length → Contiguous a labels.length →
+      labels.length ≤ fuel →
+      leidenLoop kernel refine nAgg fuel count labels (ofLabels a labels.length) ≠ .ok none := by
+  intro fuel
+  induction fuel with
+  | zero => intro count labels a hn _ h; omega
+  | succ fuel ih =>
+    intro count labels a hn ha hf
+    have hraw := hk.kernelLen (count + 1) labels
+    obtain ⟨a1, k1, hk1pos, hk1eq, hgm1, hdot1, hlen1, hcont1, hco1⟩ := louvain_step hn hraw ha
+    have hlc : (inverse (kernel (count + 1) labels).1).length = labels.length := by
+      rw [inverse_length, hraw]
+    have hrefl := hk.refineLen (count + 1) (inverse (kernel (count + 1) labels).1)
+    rw [hlc] at hrefl
+    obtain ⟨a2, k2, hk2pos, hk2eq, hgm2, hdot2, hlen2, hcont2, hco2⟩ := louvain_step hn hrefl ha
+    unfold leidenLoop
+    simp only [hgm1, hgm2, hdot1, hdot2, bind, Except.bind, pure, Except.pure]
+    have hrows : ((ofLabels (inverse (kernel (count + 1) labels).1) k1).rows.length !=
+        (ofLabels (inverse (refine (count + 1) (inverse (kernel (count + 1) labels).1))) k2).rows.length) = false := by
+      simp [ofLabels, inverse_length, hraw, hrefl]
+    simp only [hrows, Bool.false_eq_true, if_false]
+    have hncol : (ofLabels (inverse (refine (count + 1) (inverse (kernel (count + 1) labels).1))) k2).nCol = k2 := rfl
+    rw [hncol]
+    split
+    · intro h; cases h
+    · rename_i hstop
+      have hflag : (kernel (count + 1) labels).2 = false := by
+        cases hfl : (kernel (count + 1) labels).2 with
+        | false => rfl
+        | true => exfalso; apply hstop; simp [hfl]
+      have hlt : k2 < labels.length := by rw [hk2eq]; exact hp (count + 1) labels hflag
+      have hrc := inverse_contiguous (refine (count + 1) (inverse (kernel (count + 1) labels).1))
+      rw [← hk2eq] at hrc
+      have hspec := refinedToCoarse_spec (labels := inverse (kernel (count + 1) labels).1)
+        (refined := inverse (refine (count + 1) (inverse (kernel (count + 1) labels).1))) (kRef := k2)
+        (by rw [inverse_length, inverse_length, hraw, hrefl]) hrc
+        (by
+          intro i j hi hj hij
+          rw [inverse_length, hrefl] at hi hj
+          have hsp := inverse_samePartition (refine (count + 1) (inverse (kernel (count + 1) labels).1))
+          have := (hsp.2 i (by rw [hrefl]; exact hi) j (by rw [hrefl]; exact hj)).mpr hij
+          exact hk.within (count + 1) _ i j (by rw [hlc]; exact hi) (by rw [hlc]; exact hj) this)
+      have hl' := hspec.1
+      have := ih (count + 1) (refinedToCoarse (inverse (kernel (count + 1) labels).1)
+        (inverse (refine (count + 1) (inverse (kernel (count + 1) labels).1))) k2) a2
+        (by rw [hl']; exact hk2pos) (by rw [hl']; exact hcont2) (by rw [hl']; omega)
+      rw [hl'] at this
+      exact this
+
+/-- ★★ total form of `Leiden.fit` -/
+theorem leidenFit_total {argsort : List Int → List Nat} (hs : ∀ key, IsArgsort key (argsort key))
+    {kernel : Nat → List Nat → List Int × Bool} {refine : Nat → List Nat → List Int}
+    (hk : LeidenContract kernel refine) (hp : LeidenProgress kernel refine) (nAgg : Int) {fuel N : Nat}
+    (hN : 0 < N) (hf : N ≤ fuel) (sortClusters shuffle bipartite : Bool) (nRow : Nat) {index : List Nat}
+    (hidx : shuffle = true → index.Perm (List.range N)) :
+    ∃ f count, leidenFit argsort kernel refine nAgg fuel N index sortClusters shuffle bipartite nRow
+        = .ok (some (f, count)) ∧
+      ValidClustering N (allLabels f) sortClusters ∧ f = splitVars bipartite nRow (allLabels f) := by
+  unfold leidenFit
+  have hc0 : Contiguous (List.range N) (List.range N).length := by
+    rw [List.length_range]
+    exact ⟨fun x hx => List.mem_range.mp hx, fun c hc => List.mem_range.mpr hc⟩
+  rw [identity_eq]
+  have hne := leidenLoop_fuel (nAgg := nAgg) hk hp fuel 0 (List.range N) (List.range N) (by simpa using hN) hc0
+    (by simpa using hf)
+  have := leidenLoop_spec (nAgg := nAgg) hk fuel 0 (List.range N) (List.range N) (by simpa using hN) hc0
+  rw [List.length_range] at this hne
+  rcases this with h | ⟨a', k, c', h, hl, _, hc, _⟩
+  · exact absurd h hne
+  · obtain ⟨f, hf', hv, hsplit, _⟩ := postProcess_spec hs hl hc sortClusters shuffle bipartite nRow hidx
+    exact ⟨f, c', by simp [h, hf', bind, Except.bind, pure, Except.pure], hv, hsplit⟩
+
 /-- ★ `Leiden.fit` around its kernels -/
 theorem leidenFit_spec {argsort : List Int → List Nat} (hs : ∀ key, IsArgsort key (argsort key))
     {kernel : Nat → List Nat → List Int × Bool} {refine : Nat → List Nat → List Int}
